@@ -1,27 +1,44 @@
 """C03 — tools outside the allowed capability set are never executed, on any path.
 
-Monitor: every generated tool body increments a per-tool counter, appends to a log and opens a
-sentinel file (so an execution is visible to the counter and to the interpreter audit hook even
-if the tool object is wrapped). Oracle: for every request the model says
-permitted = allowed is None or required <= allowed; a forbidden request must leave the counter
-unchanged, produce no audit `open` of the sentinel, and be reported as a failure.
+Monitor: every generated tool body appends its key to a session log and opens a sentinel file (so an
+execution is visible to the log and to the interpreter audit hook even if the tool object is wrapped).
+Oracle: the check keeps ITS OWN copy of every engine's allowed set (the set the engine was constructed
+with / last assigned) and of every tool's declaration; for every request, every tool body that ran is
+judged against the policy of the engine that was driven: a tool that is forbidden under every reading of
+its declaration must not have run, must not have opened its sentinel, and a request addressed to it must
+be reported as a failure.
+
+Session = 1-3 engines configured differently (allowed set form, timeout, ROS ceiling, verbose/silent,
+constructor tools) used alternately, under real or virtual time, with registration / re-registration /
+removal / declaration mutation / policy changes / reporting and maintenance calls interleaved with
+requests over every tool entry point. A few sessions per run are long (> 20 000 operations on one engine).
 """
+import collections
+import contextlib
+import enum
 import inspect
 import os
 import sys
 import tempfile
 
-from rv import core, sched
+from rv import core, sched, vclock
 from rv.locks import wrap_all_locks
 
 PID = "C03"
 LEVEL = "exploration"
-TECHNIQUE = "runtime monitoring: side-effect counters + audit-hook sentinel inside generated tool bodies, history checked against a capability-subset model over every tool entry point"
-RULE = ("histories of <= 8 steps over {register/re-register tool, change allowed set, request via metabolize auto/forced, "
-        "digest_glucose, execute_tool_call, LLM tool loop with adversarial provider}; non-trivial = history contains >= 1 "
-        "forbidden request that reached an entry point; distinct = (entry point, |allowed|, |required - allowed|, declaration style)")
-ASSUMPTIONS = ["capability sets are compared in one representation per history (all enum members or all raw strings)",
-               "a tool declares its requirements through `required_capabilities` and/or `capabilities`; the model uses their union"]
+TECHNIQUE = "runtime monitoring: side-effect log + audit-hook sentinel inside generated tool bodies, history checked against a capability-subset model (own copy of policy and declarations) over every tool entry point"
+RULE = ("histories of <= 10 steps (a few of > 20 000) over 1-3 engines: {register/re-register/remove tool, mutate a declaration, change allowed set, "
+        "reporting and maintenance calls, request via metabolize auto/forced/nested, digest_glucose, execute_tool_call, LLM tool loop with adversarial "
+        "provider, re-entrant requests from tool bodies}; non-trivial = history contains >= 1 forbidden request that reached an entry point; "
+        "distinct = (entry point, |allowed|, |required - allowed|, declaration style, tag kind)")
+ASSUMPTIONS = ["a required tag r is certainly outside the allowed set only if no allowed tag equals it under Python equality NOR under a lenient reading "
+               "(case-insensitive match of str()/value/name, with or without the 'Enum.' prefix); requests that are forbidden under one reading "
+               "and permitted under the other are driven but not judged",
+               "a tool declares its requirements through `required_capabilities` and/or `capabilities`; the model uses their union",
+               "when a declaration is mutated after registration, the request is judged only if the declaration at registration time and the current "
+               "declaration agree on the verdict",
+               "the policy of an engine is the set it was constructed with or the set last assigned to its public `allowed_capabilities` attribute; "
+               "the check never mutates such a set itself"]
 
 _AUDIT = {"armed": False, "hits": [], "dir": None}
 
@@ -70,13 +87,101 @@ def discover_entry_points(ctx):
 
 
 def plan(tier):
-    return {"cases": 20000 if tier == "quick" else 600000, "shards": 8 if tier == "quick" else 14,
+    return {"cases": 24000 if tier == "quick" else 360000, "shards": 8 if tier == "quick" else 14,
             "min_nontrivial": 20, "timeout": 600 if tier == "quick" else 2400,
             "require": {"forbidden_requests": 2000, "permitted_runs": 500, "entry:execute_tool_call": 300,
                         "entry:metabolize_auto": 300, "entry:metabolize_forced": 300, "entry:llm_loop": 300,
-                        "entry_points_discovered": 1, "register_function_calls": 300, "thread_schedules": 1000, "misspelled_requests": 1000}}
+                        "entry:metabolize_nested": 300,
+                        "entry_points_discovered": 1, "register_function_calls": 300, "thread_schedules": 1000, "misspelled_requests": 1000,
+                        "forbidden_requests:short_sessions": 2000, "forbidden_requests:custom_tag": 300, "forbidden_requests:after_read": 300, "forbidden_requests:verbose": 300,
+                        "forbidden_requests:second_engine": 300, "forbidden_requests:virtual_time": 300,
+                        "forbidden_requests:after_tool_raised": 100, "forbidden_requests:after_declaration_mutation": 50,
+                        "forbidden_requests:dysfunctional": 50, "forbidden_requests:reentrant": 20,
+                        "reads": 1000, "maintenance_calls": 300, "unregistrations": 300, "long_session_ops": 20000,
+                        "tool_bodies_raised": 300, "provider_raised": 20}}
 
 
+# ------------------------------------------------------------------ model
+class SiteTag(enum.Enum):
+    """capability tags that are members of ANOTHER Enum (site-specific privileges)"""
+    SHELL = "shell"
+    ADMIN = "admin"
+    ROOT = 7
+    NET = "net"          # same value as Capability.NET: only judged under the lenient reading
+
+
+_CANON = {}
+
+
+def canon(tag):
+    mk = (type(tag), tag)
+    try:
+        return _CANON[mk]
+    except KeyError:
+        pass
+    s = {str(tag).lower()}
+    for attr in ("value", "name"):
+        v = getattr(tag, attr, None)
+        if v is not None and not callable(v):
+            s.add(str(v).lower())
+    s |= {x.rsplit(".", 1)[-1] for x in list(s)}
+    _CANON[mk] = frozenset(s)
+    return _CANON[mk]
+
+
+_ACANON = {}
+
+
+def allowed_canon(allowed):
+    """all lenient spellings of the tags of an allowed set (memo per frozenset)"""
+    try:
+        return _ACANON[allowed]
+    except KeyError:
+        pass
+    if len(_ACANON) > 4000:
+        _ACANON.clear()
+    u = set()
+    for a in allowed:
+        u |= canon(a)
+    _ACANON[allowed] = frozenset(u)
+    return _ACANON[allowed]
+
+
+def certainly_outside(r, allowed):
+    if r in allowed:
+        return False
+    return not (canon(r) & allowed_canon(allowed))
+
+
+def sure_forbidden(required, allowed):
+    return allowed is not None and any(certainly_outside(r, allowed) for r in required)
+
+
+def sure_permitted(required, allowed):
+    return allowed is None or all(r in allowed for r in required)
+
+
+class _Sink:
+    def write(self, s):
+        return len(s)
+
+    def flush(self):
+        pass
+
+
+class ToolBodyError(Exception):
+    pass
+
+
+class ToolBodyAbort(BaseException):
+    """a tool body may raise something that is not an Exception"""
+
+
+RAISE_KINDS = {"runtime": RuntimeError, "permission": PermissionError, "oserror": ConnectionError, "timeout": TimeoutError,
+               "value": ValueError, "key": KeyError, "custom": ToolBodyError, "base": ToolBodyAbort}
+
+
+# ------------------------------------------------------------------ thread schedules
 def thread_case(ctx, n):
     """A request for tool X races with re-registrations of X (permitted <-> forbidden) on the same engine, under the line-level
     scheduler. Whatever the interleaving, the body of a tool whose requirements are outside the allowed set never runs."""
@@ -87,12 +192,13 @@ def thread_case(ctx, n):
     rng = ctx.rng(n)
     allowed = {Capability.READ_FS}
     entry = rng.choice(["metabolize_forced", "metabolize_auto", "execute_tool_call"])
-    desc = {"threads": "request X || re-register X with a forbidden tool", "entry": entry}
+    bad_req = rng.choice([{Capability.NET}, {Capability.NET}, {"shell"}, {Capability.READ_FS, SiteTag.ADMIN}, {Capability.READ_FS, Capability.NET}])
+    desc = {"threads": "request X || re-register X with a forbidden tool", "entry": entry, "forbidden_tool_requires": sorted(map(str, bad_req))}
 
     def one(policy, label):
         ran = []
         good = SimpleTool(name="x", description="ok", func=lambda *a, **k: ran.append("good") or 1, required_capabilities={Capability.READ_FS})
-        bad = SimpleTool(name="x", description="bad", func=lambda *a, **k: ran.append("bad") or 2, required_capabilities={Capability.NET})
+        bad = SimpleTool(name="x", description="bad", func=lambda *a, **k: ran.append("bad") or 2, required_capabilities=set(bad_req))
         mito = Mitochondria(silent=True, allowed_capabilities=set(allowed), max_ros=1e9)
         mito.engulf_tool(good)
         wrap_all_locks(mito, sched.SchedLock, "mito")
@@ -113,7 +219,8 @@ def thread_case(ctx, n):
             return sc
         if "bad" in ran:
             ctx.violation("forbidden-tool-ran:concurrent-reregistration",
-                          "a tool requiring NET ran (allowed = {READ_FS}) when its registration raced with a request for the same name via %s" % entry,
+                          "a tool requiring %s ran (allowed = {READ_FS}) when its registration raced with a request for the same name via %s" % (
+                              desc["forbidden_tool_requires"], entry),
                           dict(desc, policy=label, choices=sc.choices[:200], ran=ran))
         if sc.switch_while_other_inside:
             ctx.nontrivial(("threads", entry, sc.trace_hash()))
@@ -127,48 +234,153 @@ def thread_case(ctx, n):
         one(sched.RandomPolicy(rng, (0.2, 0.4, 0.6)[i % 3]), "random")
 
 
-def run_case(ctx, n):
-    if n % (700 if ctx.tier == "quick" else 10000) == 11:
-        return thread_case(ctx, n)
-    from operon_ai.core.types import Capability
-    from operon_ai.organelles.mitochondria import Mitochondria, MetabolicPathway, SimpleTool
-    from operon_ai.organelles.nucleus import Nucleus
-    from operon_ai.providers import LLMResponse, ToolCall
+# ------------------------------------------------------------------ sessions
+class Rec:
+    """one generated tool (one body); `req_now` is the check's own copy of what it currently declares"""
+    __slots__ = ("key", "name", "style", "obj", "container", "req_now", "raise_kind", "reentrant", "advance", "custom", "reg_args", "mutated")
 
-    rng = ctx.rng(n)
-    as_str = rng.random() < 0.2
-    caps = [c.value if as_str else c for c in Capability]
 
-    def subset(p=None):
+class Eng:
+    __slots__ = ("idx", "mito", "allowed", "tools", "reg_by_key", "nucleus", "cfg", "reads", "raised", "name_list")
+
+
+def fmt(a):
+    return None if a is None else sorted(map(str, a))
+
+
+class Session:
+    def __init__(self, ctx, n, rng, long_ops=0):
+        from operon_ai.core.types import Capability
+        self.ctx, self.n, self.rng, self.long_ops = ctx, n, rng, long_ops
+        self.as_str = rng.random() < 0.15
+        self.caps = [c.value if self.as_str else c for c in Capability]
+        self.custom_tags = ["shell", "admin", "Shell", SiteTag.SHELL, SiteTag.ADMIN, SiteTag.ROOT, 7, None, ("fs", "write"),
+                            "net", "NET", "Read_FS", "Capability.NET", SiteTag.NET, "", 0, -0.0, float("inf"), 2 ** 53 + 1]
+        self.log = []                      # keys of tool bodies in execution order
+        self.recs = {}
+        self.engines = []
+        self.history = collections.deque(maxlen=40)
+        self.ops = 0
+        self.counter = 0
+        self.forbidden_seen = set()
+        self.current = None                # engine being driven
+        self.depth = 0
+        self.clock = None
+        self.call_cache = {}
+        self.names = ["fetch", "Fetch", "fetcher", "sum", "abs", "t1", "len", "tool_two", "pay"]
+        if rng.random() < 0.25:            # unusual names: one letter, a prefix of another name, keywords inside, long, non-ASCII, dunder
+            self.names = self.names[:5] + ["x", "order", "nottrue", "Tool_Two", "t" * 60, "\u03c0tool", "__class__", "print", "pi", "tool_two_"]
+        self.styles = ["required", "register_function", "capabilities", "both_equal", "empty_required_plus_capabilities",
+                       "list_required", "frozen_required", "tuple_required", "none", "required", "register_function", "dynamic_required"]
+        self.provider = None
+
+    # -------------------------------------------------------------- generators
+    def subset(self, p=None):
+        rng = self.rng
         p = rng.choice([0.0, 0.2, 0.5, 0.8, 1.0]) if p is None else p
-        return {c for c in caps if rng.random() < p}
+        return {c for c in self.caps if rng.random() < p}
 
-    runs = {}        # tool key -> count
-    log = []
-    tools_model = {}   # registered name -> (key, required set, style)
+    def required_set(self):
+        rng = self.rng
+        req = self.subset(rng.choice([0.0, 0.15, 0.3, 0.6]))
+        custom = False
+        if rng.random() < 0.01 and not self.long_ops:      # a very large declaration
+            req |= {"site:%d" % i for i in range(400)}
+            custom = True
+        if rng.random() < 0.3:             # arbitrary required-capability sets: tags that are not Capability members
+            for _ in range(rng.choice([1, 1, 2])):
+                req.add(rng.choice(self.custom_tags))
+            custom = True
+            if rng.random() < 0.5:
+                req = {t for t in req if t not in self.caps}
+        return req, custom
 
-    def make_tool(name, required, style, key):
-        sentinel = os.path.join(_AUDIT["dir"], "%d-%s" % (ctx.shard, key))
+    def allowed_value(self):
+        """(value handed to the engine, the check's own copy)"""
+        rng = self.rng
+        kind = rng.choice(["none", "empty", "subset", "subset", "subset", "all", "one", "with_custom"])
+        if kind == "none":
+            return None, None
+        s = set() if kind == "empty" else set(self.caps) if kind == "all" else {rng.choice(self.caps)} if kind == "one" else self.subset()
+        if kind == "with_custom":
+            s.add(rng.choice(self.custom_tags))
+        if rng.random() < 0.01 and not self.long_ops:      # a very large grant (never the tags of a large declaration above 397)
+            s |= {"site:%d" % i for i in range(rng.choice([397, 2000]))}
+        form = rng.random()
+        given = frozenset(s) if form < 0.12 else list(s) if form < 0.17 else tuple(s) if form < 0.2 else set(s)
+        return given, frozenset(s)
+
+    # -------------------------------------------------------------- tools
+    def new_rec(self, name=None, force_forbidden_for=None):
+        rng = self.rng
+        r = Rec()
+        r.name = name or (rng.choice(self.names) if not self.long_ops or rng.random() < 0.1 else "tool_%d" % self.counter)
+        r.style = rng.choice(self.styles)
+        if r.style == "none":
+            req, r.custom = set(), False
+        else:
+            req, r.custom = self.required_set()
+        if force_forbidden_for is not None and force_forbidden_for.allowed is not None and not sure_forbidden(req, force_forbidden_for.allowed):
+            extra = [c for c in self.caps + ["shell", SiteTag.ADMIN] if certainly_outside(c, force_forbidden_for.allowed)]
+            if extra and r.style != "none":
+                req.add(rng.choice(extra))
+        self.counter += 1
+        r.key = "%s#%d" % (r.name, self.counter)
+        r.req_now = frozenset(req)
+        r.raise_kind = rng.choice(list(RAISE_KINDS)) if rng.random() < 0.12 else None
+        r.reentrant = rng.random() < 0.06 and not self.long_ops
+        r.advance = rng.choice([0.0, 0.0, 1e-6, 0.5, 10.0, 90000.0, 864000.0])
+        r.mutated = False
+        r.container = None
+        r.obj = None
+        r.reg_args = None
+        self.recs[r.key] = r
+        self.make_tool(r, req)
+        return r
+
+    def make_tool(self, r, required):
+        from operon_ai.organelles.mitochondria import SimpleTool
+        S = self
+        key = r.key
+        sentinel = os.path.join(_AUDIT["dir"], "%d-%s" % (self.ctx.shard, key))
+        light = bool(self.long_ops)
 
         def body(*a, **kw):
-            runs[key] = runs.get(key, 0) + 1
-            log.append(key)
-            try:
-                with open(sentinel, "a"):
+            S.log.append(key)
+            if not light:
+                try:
+                    with open(sentinel, "a"):
+                        pass
+                except OSError:
                     pass
-            except OSError:
-                pass
-            if style.endswith("!raise"):
-                raise RuntimeError("tool %s failed" % key)
-            return "RAN-%s" % key
+            if S.clock is not None and r.advance:
+                S.clock.advance(r.advance)
+            if r.reentrant and S.depth < 2 and S.current is not None:
+                S.reenter(r)
+            if r.raise_kind:
+                S.ctx.count("tool_bodies_raised")
+                if S.current is not None:
+                    S.current.raised = True
+                raise RAISE_KINDS[r.raise_kind]("tool %s failed" % key)
+            return "RAN-%s|" % key
 
-        base = style.split("!")[0]
-        if base == "required":
-            return SimpleTool(name=name, description="t", func=body, required_capabilities=set(required))
-        if base == "register_function":
-            return ("register", name, body, set(required))
-        if base == "frozen_required":
-            return SimpleTool(name=name, description="t", func=body, required_capabilities=frozenset(required))
+        style = r.style
+        if style == "required":
+            r.container = set(required)
+            if not light and S.rng.random() < 0.08:
+                # the SAME set object as the declaration of another tool (equal content at this moment)
+                twins = [x for x in S.recs.values() if x is not r and x.container is not None and x.style == "required" and x.req_now == r.req_now]
+                if twins:
+                    r.container = twins[0].container
+            r.obj = SimpleTool(name=r.name, description="t", func=body, required_capabilities=r.container)
+            return
+        if style == "register_function":
+            r.container = set(required)
+            r.reg_args = (r.name, body, r.container)
+            return
+        if style == "frozen_required":
+            r.obj = SimpleTool(name=r.name, description="t", func=body, required_capabilities=frozenset(required))
+            return
 
         class Obj:
             description = "custom tool"
@@ -176,117 +388,280 @@ def run_case(ctx, n):
 
             def execute(self, *a, **kw):
                 return body(*a, **kw)
+
+        if style == "dynamic_required":
+            # the declaration is computed on every read; reading it may (once) re-register the name with a forbidden tool
+            state = {"fired": False}
+            declared = frozenset(required)
+
+            def _get(self_):
+                S.ctx.count("declaration_reads")
+                if not state["fired"] and S.current is not None and S.depth < 2 and S.rng.random() < 0.3:
+                    state["fired"] = True
+                    S.reregister_forbidden(r.name)
+                return set(declared)
+            Obj.required_capabilities = property(_get)
         o = Obj()
-        o.name = name
-        if base == "capabilities":
-            o.capabilities = set(required)
-        elif base == "both_equal":
+        o.name = r.name
+        if style == "capabilities":
+            r.container = set(required)
+            o.capabilities = r.container
+        elif style == "both_equal":
             o.capabilities = set(required)
             o.required_capabilities = set(required)
-        elif base == "empty_required_plus_capabilities":
+        elif style == "empty_required_plus_capabilities":
             o.required_capabilities = set()
             o.capabilities = set(required)
-        elif base == "list_required":
+        elif style == "list_required":
             o.required_capabilities = list(required)
-        elif base == "none":
-            pass
-        return o
+        elif style == "tuple_required":
+            o.required_capabilities = tuple(required)
+        r.obj = o
 
-    allowed_kind = rng.choice(["none", "empty", "subset", "subset", "subset", "all"])
-    allowed = None if allowed_kind == "none" else set() if allowed_kind == "empty" else set(caps) if allowed_kind == "all" else subset()
-    via_ctor = rng.random() < 0.5
-    names = ["fetch", "Fetch", "fetcher", "sum", "abs", "t1", "len", "tool_two", "pay"]
-    styles = ["required", "register_function", "capabilities", "both_equal", "empty_required_plus_capabilities",
-              "list_required", "frozen_required", "none", "required!raise"]
-
-    initial = []
-    counter = [0]
-
-    def new_tool(name=None):
-        name = name or rng.choice(names)
-        style = rng.choice(styles)
-        required = set() if style.startswith("none") else subset(rng.choice([0.0, 0.15, 0.3, 0.6]))
-        counter[0] += 1
-        key = "%s#%d" % (name, counter[0])
-        return name, required, style, key, make_tool(name, required, style, key)
-
-    def register(mito, spec):
-        name, required, style, key, obj = spec
-        if isinstance(obj, tuple):
+    def register(self, eng, r, note=True):
+        rng = self.rng
+        if r.reg_args is not None:
             kw = {}
             if rng.random() < 0.5:       # the other optional registration arguments must not disturb the declaration
-                kw["parameters_schema"] = {"type": "object", "properties": {"x": {"type": "integer"}}}
+                kw["parameters_schema"] = rng.choice([{"type": "object", "properties": {"x": {"type": "integer"}}}, {}, {"type": "object"}])
+            name, body, req = r.reg_args
             if rng.random() < 0.5:
-                kw["description"] = "tool %s" % name
-                mito.register_function(obj[1], obj[2], required_capabilities=obj[3], **kw)
+                kw["description"] = rng.choice(["tool %s" % name, "", "d" * 300])
+                eng.mito.register_function(name, body, required_capabilities=req, **kw)
             else:
-                mito.register_function(obj[1], obj[2], "d", required_capabilities=obj[3], **kw)
-            ctx.count("register_function_calls")
+                eng.mito.register_function(name, body, "d", required_capabilities=req, **kw)
+            self.ctx.count("register_function_calls")
         else:
-            mito.engulf_tool(obj)
-        tools_model[name] = (key, required, style)
+            eng.mito.engulf_tool(r.obj)
+        self.model_register(eng, r)
+        if note:
+            self.note({"op": "register", "engine": eng.idx, "tool": r.name, "key": r.key, "required": fmt(r.req_now), "style": r.style})
 
-    for _ in range(rng.randint(0, 2)):
-        initial.append(new_tool())
-    ctor_tools = [s[4] for s in initial if not isinstance(s[4], tuple)] if via_ctor else []
-    mito = Mitochondria(silent=True, allowed_capabilities=allowed, tools=ctor_tools or None, max_ros=1e9)
-    if via_ctor:   # constructor tools are registered first, in order; the others afterwards
-        for s in initial:
-            if not isinstance(s[4], tuple):
-                tools_model[s[0]] = (s[3], s[1], s[2])
-        for s in initial:
-            if isinstance(s[4], tuple):
-                register(mito, s)
-    else:
-        for s in initial:
-            register(mito, s)
+    def model_register(self, eng, r):
+        old = eng.tools.get(r.name)
+        if old is not None:
+            self.model_unregister(eng, r.name)
+        else:
+            eng.name_list.append(r.name)
+        eng.tools[r.name] = (r.key, r.req_now)
+        lst = eng.reg_by_key.setdefault(r.key, [])
+        if r.req_now not in lst:
+            lst.append(r.req_now)
 
-    history = []
-    forbidden_seen = []
+    def model_unregister(self, eng, name):
+        # (the declarations seen at registration time stay on record: a body that is still running, or that runs although it
+        #  was replaced, is judged under every reading the engine may have taken)
+        eng.tools.pop(name)
 
-    def permitted(name):
-        key, required, style = tools_model[name]
-        cur = mito.allowed_capabilities
-        return cur is None or required <= set(cur)
+    def reregister_forbidden(self, name):
+        """called from inside the engine (a declaration property): the name is re-registered with a forbidden tool"""
+        eng = self.current
+        self.depth += 1
+        try:
+            r = self.new_rec(name, force_forbidden_for=eng)
+            r.reentrant = False
+            self.register(eng, r, note=False)
+            self.note({"op": "re-register during declaration read", "engine": eng.idx, "tool": name, "key": r.key, "required": fmt(r.req_now)})
+            self.ctx.count("reentrant_reregistrations")
+        finally:
+            self.depth -= 1
 
-    def spell(name):
+    def reenter(self, r):
+        """a tool body calls back into the engine that is running it: requests another tool, or re-registers a name"""
+        from operon_ai.organelles.mitochondria import MetabolicPathway
+        from operon_ai.providers import ToolCall
+        eng, rng = self.current, self.rng
+        self.depth += 1
+        try:
+            self.ctx.count("reentrant_calls")
+            names = list(eng.tools)
+            if not names:
+                return
+            forb = [t for t in names if self.verdict_name(eng, t) == "forbidden"]
+            if rng.random() < 0.3:
+                nm = rng.choice(names)
+                r2 = self.new_rec(nm, force_forbidden_for=eng)
+                r2.reentrant = False
+                self.register(eng, r2, note=False)
+                self.note({"op": "re-register from a tool body", "engine": eng.idx, "tool": nm, "key": r2.key, "required": fmt(r2.req_now)})
+                target = nm
+            else:
+                target = rng.choice(forb) if forb and rng.random() < 0.8 else rng.choice(names)
+            if self.verdict_name(eng, target) == "forbidden":
+                self.ctx.count("forbidden_requests:reentrant")
+            how = rng.choice(["execute_tool_call", "metabolize_forced", "metabolize_auto"])
+            self.note({"op": "request from a tool body", "engine": eng.idx, "tool": target, "via": how, "from": r.key})
+            try:
+                if how == "execute_tool_call":
+                    eng.mito.execute_tool_call(ToolCall(id="inner", name=target, arguments={}))
+                else:
+                    eng.mito.metabolize("%s(1)" % target, MetabolicPathway.OXIDATIVE if how == "metabolize_forced" else None)
+            except BaseException:
+                pass
+        finally:
+            self.depth -= 1
+
+    # -------------------------------------------------------------- verdicts
+    def verdict(self, eng, key):
+        r = self.recs[key]
+        readings = [r.req_now] + eng.reg_by_key.get(key, [])
+        A = eng.allowed
+        if all(sure_forbidden(q, A) for q in readings):
+            return "forbidden"
+        if all(sure_permitted(q, A) for q in readings):
+            return "permitted"
+        return "ambiguous"
+
+    def verdict_name(self, eng, name):
+        return self.verdict(eng, eng.tools[name][0])
+
+    def note(self, rec):
+        self.ops += 1
+        self.history.append(rec)
+
+    def witness(self, extra=None):
+        w = {"operations_so_far": self.ops, "last_operations": list(self.history),
+             "engines": [dict({k: v for k, v in e.cfg.items() if not k.startswith("_")}, allowed_model=fmt(e.allowed)) for e in self.engines], "virtual_time": self.clock is not None}
+        if extra:
+            w.update(extra)
+        return w
+
+    # -------------------------------------------------------------- engines
+    def new_engine(self):
+        from operon_ai.organelles.mitochondria import Mitochondria
+        from operon_ai.organelles.nucleus import Nucleus
+        rng = self.rng
+        e = Eng()
+        e.idx = len(self.engines)
+        given, model = self.allowed_value()
+        if self.engines and rng.random() < 0.15 and self.engines[0].cfg["_given"] is not None:
+            # the SAME set object handed to two engines
+            given, model = self.engines[0].cfg["_given"], self.engines[0].cfg["_model0"]
+        e.allowed = model
+        kw = {}
+        cfg = {"allowed_form": type(given).__name__}
+        if rng.random() < 0.5:
+            # (tiny and zero timeouts only under the virtual clock, where expiry is decided by the workload, not by the machine)
+            kw["timeout_seconds"] = rng.choice([0, 0.0, 1e-9, 0.001, 0.5, 1, 86400 * 3, 5.0, float("inf")] if self.clock is not None
+                                               else [5.0, 60, 1e9, float("inf"), float("nan")])
+        if self.long_ops:
+            kw["max_ros"] = rng.choice([1e9, float("inf")])
+        else:
+            x = rng.random()
+            if x < 0.65:
+                kw["max_ros"] = rng.choice([1e9, 1e9, float("inf")])
+            elif x < 0.9:
+                kw["max_ros"] = rng.choice([1.0, 1, 0.5, 0.3, 0.1 + 0.2, 0.1, 0, 0.0, float("nan")])
+            # else: the default ceiling
+        silent = rng.random() < (0.9 if self.long_ops else 0.6)
+        if silent or rng.random() < 0.8:
+            kw["silent"] = silent
+        cfg.update({k: repr(v) for k, v in kw.items()})
+        e.cfg = cfg
+        e.tools, e.reg_by_key, e.reads, e.raised, e.name_list = {}, {}, 0, False, []
+        initial = [self.new_rec() for _ in range(rng.randint(0, 2))]
+        if self.engines and rng.random() < 0.4:
+            # a tool object shared with another engine
+            shared = [r for r in self.recs.values() if r.obj is not None and r.style != "dynamic_required" and r not in initial]
+            if shared:
+                initial.append(rng.choice(shared))
+        via_ctor = rng.random() < 0.5
+        ctor = [r for r in initial if r.obj is not None] if via_ctor else []
+        if via_ctor:
+            kw["tools"] = [r.obj for r in ctor] if (ctor or rng.random() < 0.5) else None
+        e.mito = Mitochondria(allowed_capabilities=given, **kw)
+        cfg["_given"], cfg["_model0"] = given, model
+        self.engines.append(e)
+        if kw.get("tools") is not None and rng.random() < 0.3:
+            # the caller keeps using its list after construction: what is appended now was never registered
+            orphan = self.new_rec(force_forbidden_for=e)
+            if orphan.obj is not None:
+                kw["tools"].append(orphan.obj)
+        for r in ctor:
+            self.model_register(e, r)
+        self.current = e
+        for r in initial:
+            if r not in ctor:
+                self.register(e, r, note=False)
+        self.current = None
+        e.nucleus = None
+        if rng.random() < 0.5:
+            others = [x.nucleus for x in self.engines[:-1] if x.nucleus is not None]
+            e.nucleus = rng.choice(others) if others and rng.random() < 0.5 else Nucleus(
+                provider=self.get_provider(), base_energy_cost=rng.choice([10, 0, 1, 10 ** 9]), max_retries=rng.choice([3, 0, 1]))
+        self.note({"op": "new engine", "engine": e.idx, "config": {k: v for k, v in cfg.items() if not k.startswith("_")},
+                   "allowed": fmt(model), "tools": {nm: fmt(self.recs[k].req_now) for nm, (k, _) in e.tools.items()}})
+        return e
+
+    def get_provider(self):
+        if self.provider is None:
+            self.provider = ScriptedProvider(self)
+        return self.provider
+
+    # -------------------------------------------------------------- operations
+    def spell(self, name):
         """how the request spells the tool: mostly exactly; sometimes a case / whitespace variant that is NOT a registered
         name (then no registered tool is addressed at all and, in particular, no forbidden tool may run)"""
+        rng = self.rng
         if rng.random() < 0.75:
             return name
-        v = rng.choice([name.upper(), name.lower(), name.title(), name.swapcase(), name + " ", " " + name, name + "_", name[:-1]])
-        return v
+        return rng.choice([name.upper(), name.lower(), name.title(), name.swapcase(), name + " ", " " + name, name + "_", name[:-1]])
 
-    def request(entry, name):
-        """returns nothing; checks obligations."""
-        key, required, style = tools_model[name]
-        ok = permitted(name)
-        before = runs.get(key, 0)
-        all_before = dict(runs)
+    ARGS = ["1, 2", "3, k=4", "", "0.1 + 0.2, -0.0, k=2**53 + 1", "inf, k=[1, 2]", "1e308 * 10", "k=-0.0", "'a', \"b\"", "(1, 2), [3]"]
+
+    def request(self, eng, entry, name):
+        from operon_ai.organelles.mitochondria import MetabolicPathway
+        from operon_ai.providers import ToolCall
+        ctx, rng, mito = self.ctx, self.rng, eng.mito
         target = name
-        name = spell(name)
+        name = self.spell(name) if not self.long_ops or rng.random() < 0.02 else name
         addressed = True
         if name != target:
             ctx.count("misspelled_requests")
-            if name in tools_model:        # the variant happens to be another registered tool: that one is addressed
+            if name in eng.tools:          # the variant happens to be another registered tool: that one is addressed
                 target = name
-                key, required, style = tools_model[name]
-                ok = permitted(name)
-                before = runs.get(key, 0)
             else:
-                addressed = False          # no registered tool is addressed; only the global rule below applies
-        _AUDIT["hits"].clear()
-        _AUDIT["armed"] = True
+                addressed = False          # no registered tool is addressed; only the global rule applies
+        if target not in eng.tools:        # a name this engine never registered (another engine's tool, an orphan)
+            addressed = False
+            self.ctx.count("foreign_requests")
+            key, r0, v0 = None, None, None
+        else:
+            key = eng.tools[target][0]
+            r0 = self.recs[key]
+            v0 = self.verdict(eng, key)
+        mark = len(self.log)
+        try:
+            dysfunctional = bool(mito.get_ros_level() >= mito.max_ros)     # (informational: public getter + public option)
+        except Exception:
+            dysfunctional = False
+        if not self.long_ops:
+            _AUDIT["hits"].clear()
+            _AUDIT["armed"] = True
+        self.current = eng
         reported_success = None
         detail = None
+        judged_report = False
         try:
             if entry == "metabolize_auto":
-                expr = "%s(1, 2)" % name
-                r = mito.metabolize(expr)
+                r = mito.metabolize("%s(%s)" % (name, rng.choice(self.ARGS)))
                 reported_success, detail = r.success, r.error
                 # auto-detection may route an allow-listed name (sum/abs/len) elsewhere; that is fine
             elif entry == "metabolize_forced":
-                r = mito.metabolize("%s(3, k=4)" % name, MetabolicPathway.OXIDATIVE)
+                r = mito.metabolize("%s(%s)" % (name, rng.choice(self.ARGS)), MetabolicPathway.OXIDATIVE)
+                reported_success, detail = r.success, r.error
+                judged_report = True
+            elif entry == "metabolize_nested":
+                others = [t for t in eng.tools if t != target]
+                perm = [t for t in others if self.verdict_name(eng, t) == "permitted"]
+                outer = rng.choice(perm) if perm and rng.random() < 0.7 else rng.choice(others) if others else "abs"
+                shape = rng.choice(["1 + %(n)s(1)", "%(o)s(%(n)s(1))", "%(o)s(k=%(n)s())", "[%(n)s(1)]", "%(n)s(1) if 1 else 0",
+                                    "0 if 0 else %(n)s()", "%(n)s(1) == 1", "abs(%(n)s(1))", "%(n)s(1) and true", "(%(n)s(2), 1)",
+                                    "%(o)s(1, %(n)s(k=%(o)s()))", "-%(n)s()", "%(n)s()(1)", "%(n)s(%(n)s())"])
+                expr = shape % {"n": name, "o": outer}
+                pw = rng.choice([None, None, MetabolicPathway.OXIDATIVE, MetabolicPathway.OXIDATIVE, MetabolicPathway.GLYCOLYSIS,
+                                 MetabolicPathway.KREBS_CYCLE])
+                r = mito.metabolize(expr, pw)
                 reported_success, detail = r.success, r.error
             elif entry == "metabolize_other_pathway":
                 r = mito.metabolize("%s(3)" % name, rng.choice([MetabolicPathway.GLYCOLYSIS, MetabolicPathway.KREBS_CYCLE, MetabolicPathway.BETA_OXIDATION]))
@@ -295,110 +670,376 @@ def run_case(ctx, n):
                 s = mito.digest_glucose("%s(5)" % name)
                 reported_success, detail = ("RAN-" in s), s
             elif entry == "execute_tool_call":
-                r = mito.execute_tool_call(ToolCall(id="c1", name=name, arguments=rng.choice([{}, {"x": 1}])))
+                call = self.call_cache.get(name) if rng.random() < 0.3 else None      # the same ToolCall object again
+                if call is None:
+                    call = ToolCall(id="c%d" % self.ops, name=name, arguments=rng.choice(
+                        [{}, {}, {"x": 1}, {"x": float("nan"), "k": 2 ** 53 + 1}, {"a b": -0.0}, {"x": None}, None]))
+                    self.call_cache[name] = call
+                r = mito.execute_tool_call(call)
                 reported_success, detail = r.success, r.error or r.output
+                judged_report = True
             elif entry == "llm_loop":
-                prompts = []
-
-                class Provider:
-                    name = "adversary"
-
-                    def is_available(self):
-                        return True
-
-                    def complete(self, prompt, config=None):
-                        prompts.append(prompt)
-                        return LLMResponse(content="final", model="m", tokens_used=1, latency_ms=0.0)
-
-                    def complete_with_tools(self, prompt, tools=None, config=None):
-                        prompts.append(prompt)
-                        k = len(prompts)
-                        others = [t for t in tools_model if t != name]
-                        calls = [ToolCall(id="id%d" % k, name=name, arguments={})]
-                        if others and rng.random() < 0.5:
-                            calls.insert(rng.randint(0, 1), ToolCall(id="o%d" % k, name=rng.choice(others), arguments={}))
-                        if rng.random() < 0.3:
-                            calls.append(ToolCall(id="u%d" % k, name="no_such_tool", arguments={}))
-                        if rng.random() < 0.3:
-                            calls.append(ToolCall(id="id%d" % k, name=name, arguments={}))
-                        return LLMResponse(content="r", model="m", tokens_used=1, latency_ms=0.0), calls
-                # other tools requested in the same round are judged too
-                other_before = {t: runs.get(tools_model[t][0], 0) for t in tools_model}
-                Nucleus(provider=Provider()).transcribe_with_tools("q", mito, max_iterations=rng.randint(1, 4))
-                for t, b in other_before.items():
-                    k2 = tools_model[t][0]
-                    if not permitted(t) and runs.get(k2, 0) != b:
-                        ctx.violation("forbidden-tool-ran:llm_loop",
-                                      "tool %r (requires %s) ran in the LLM tool loop with allowed=%s" % (
-                                          t, sorted(map(str, tools_model[t][1])), fmt(mito.allowed_capabilities)),
-                                      {"history": history, "tool": t})
-                leaked = [p for p in prompts if ("RAN-%s" % key) in p]
+                from operon_ai.organelles.nucleus import Nucleus
+                prov = self.get_provider()
+                prov.script(eng, name)
+                nuc = eng.nucleus
+                if nuc is None or rng.random() < 0.3:
+                    nuc = Nucleus(provider=prov)
+                kw = {}
+                if rng.random() < 0.1:
+                    kw["auto_execute"] = rng.random() < 0.5
+                try:
+                    nuc.transcribe_with_tools("q", mito, max_iterations=rng.choice([0, 1, 1, 2, 3, 4]), **kw)
+                finally:
+                    prov.active = False
+                leaked = [p for p in prov.prompts if ("RAN-%s|" % key) in p]
                 reported_success = bool(leaked)
                 detail = leaked[:1]
+                judged_report = True
         except BaseException as e:  # an exception is not an execution; totality belongs to C01
             reported_success, detail = False, "raised %r" % (e,)
         finally:
             _AUDIT["armed"] = False
-        after = runs.get(key, 0)
-        # whatever was requested and however it was spelled: no forbidden tool may have run
-        for t, (k2, req2, st2) in tools_model.items():
-            if not permitted(t) and runs.get(k2, 0) != all_before.get(k2, 0) and (k2 != key or not addressed):
-                ctx.violation("forbidden-tool-ran:" + entry,
-                              "request spelled %r via %s ran tool %r (requires %s) with allowed=%s" % (
-                                  name, entry, t, sorted(map(str, req2)), fmt(mito.allowed_capabilities)),
-                              {"history": list(history), "spelled": name})
+            self.current = None
+        ran = self.log[mark:]
         ctx.count("entry:" + entry)
-        rec = {"entry": entry, "tool": target, "spelled": name, "required": sorted(map(str, required)), "style": style,
-               "allowed": fmt(mito.allowed_capabilities), "permitted_by_model": ok, "ran": after - before,
+        rec = {"op": "request", "engine": eng.idx, "entry": entry, "tool": target, "key": key, "spelled": name, "required": fmt(r0.req_now) if r0 else None,
+               "style": r0.style if r0 else None, "allowed": fmt(eng.allowed), "verdict_by_model": v0, "ran": list(ran[:6]),
                "reported_success": reported_success}
-        history.append(rec)
+        self.note(rec)
+        # whatever was requested, however it was spelled, on whichever engine: no tool outside THIS engine's allowed set may have run
+        judged = set()
+        hits = [] if self.long_ops else [os.path.basename(h).split("-", 1)[1] for h in _AUDIT["hits"]]
+        for k in list(ran) + hits:
+            if k in judged or k not in self.recs:
+                continue
+            judged.add(k)
+            if self.verdict(eng, k) == "forbidden":
+                rk = self.recs[k]
+                ctx.violation("forbidden-tool-ran:" + entry,
+                              "request spelled %r via %s on engine %d ran tool %r (requires %s) with allowed=%s (log %d, sentinel opens %d)" % (
+                                  name, entry, eng.idx, rk.name, fmt(rk.req_now), fmt(eng.allowed), ran.count(k), hits.count(k)),
+                              self.witness({"ran_key": k}))
         if not addressed:
             return
-        if not ok:
+        if v0 == "ambiguous":
+            ctx.count("ambiguous_requests")
+        if v0 == "forbidden":
             ctx.count("forbidden_requests")
-            forbidden_seen.append((entry, len(mito.allowed_capabilities), len(required - set(mito.allowed_capabilities)), style))
-            sent = [h for h in _AUDIT["hits"] if h.endswith("-" + key)]
-            if after != before or sent:
-                ctx.violation("forbidden-tool-ran:" + entry,
-                              "tool %r requiring %s ran via %s with allowed=%s (counter +%d, sentinel opens %d)" % (
-                                  name, rec["required"], entry, rec["allowed"], after - before, len(sent)),
-                              {"history": list(history)})
-            elif reported_success and entry in ("metabolize_forced", "execute_tool_call", "llm_loop"):
-                # (on the other entries the text may legitimately address an allow-listed function of the same name)
+            if not self.long_ops:
+                ctx.count("forbidden_requests:short_sessions")
+            if r0.custom:
+                ctx.count("forbidden_requests:custom_tag")
+            if eng.reads:
+                ctx.count("forbidden_requests:after_read")
+            if eng.cfg.get("silent") != "True":
+                ctx.count("forbidden_requests:verbose")
+            if eng.idx > 0:
+                ctx.count("forbidden_requests:second_engine")
+            if self.clock is not None:
+                ctx.count("forbidden_requests:virtual_time")
+            if eng.raised:
+                ctx.count("forbidden_requests:after_tool_raised")
+            if r0.mutated:
+                ctx.count("forbidden_requests:after_declaration_mutation")
+            if dysfunctional:
+                ctx.count("forbidden_requests:dysfunctional")
+            self.forbidden_seen.add((entry, len(eng.allowed), sum(1 for q in r0.req_now if certainly_outside(q, eng.allowed)), r0.style, r0.custom))
+            still = eng.tools.get(target)
+            if (reported_success and judged_report and key not in ran and still is not None
+                    and self.verdict(eng, still[0]) == "forbidden"):
                 ctx.violation("forbidden-request-reported-success:" + entry,
-                              "forbidden request for %r via %s reported success (%r)" % (name, entry, detail),
-                              {"history": list(history)})
+                              "forbidden request for %r via %s reported success (%r)" % (name, entry, detail), self.witness())
+        elif v0 == "permitted" and key in ran:
+            ctx.count("permitted_runs")
+
+    def op_read(self, eng):
+        """reporting / read-only APIs: must not change any later verdict"""
+        rng, mito = self.rng, eng.mito
+        what = rng.choice(["get_statistics", "get_statistics", "list_tools", "export_tool_schemas", "get_efficiency", "get_ros_level",
+                           "repr", "nucleus_reports", "all_public_getters"])
+        self.current = eng
+        try:
+            if what == "repr":
+                repr(mito), str(mito)
+            elif what == "nucleus_reports":
+                if eng.nucleus is not None:
+                    eng.nucleus.get_total_tokens_used()
+                    eng.nucleus.get_total_energy_consumed()
+                    repr(eng.nucleus)
+            elif what == "all_public_getters":
+                # every public zero-argument get_* / list_* / export_* method, whatever it is called
+                for nm in sorted(dir(type(mito))):
+                    if nm.startswith(("get_", "list_", "export_")):
+                        fn = getattr(mito, nm, None)
+                        try:
+                            if callable(fn) and all(p.default is not p.empty or p.kind in (p.VAR_POSITIONAL, p.VAR_KEYWORD)
+                                                    for p in inspect.signature(fn).parameters.values()):
+                                fn()
+                        except Exception:
+                            pass
+            else:
+                for _ in range(rng.choice([1, 1, 3])):
+                    getattr(mito, what)()
+        except Exception:
+            pass       # a failing report is not a C03 matter
+        finally:
+            self.current = None
+        eng.reads += 1
+        self.ctx.count("reads")
+        self.note({"op": "read", "engine": eng.idx, "what": what})
+
+    def op_maintenance(self, eng):
+        rng = self.rng
+        amount = rng.choice([None, 0, 0.1, 0.5, 1e9, -1, float("nan"), float("inf"), 0.1 + 0.2])
+        try:
+            if amount is None:
+                eng.mito.repair()
+            else:
+                eng.mito.repair(amount)
+        except Exception:
+            pass
+        if eng.nucleus is not None and rng.random() < 0.3:
+            try:
+                eng.nucleus.clear_log()
+            except Exception:
+                pass
+        self.ctx.count("maintenance_calls")
+        self.note({"op": "repair", "engine": eng.idx, "amount": repr(amount)})
+
+    def op_unregister(self, eng):
+        if not eng.tools:
+            return
+        name = self.rng.choice(list(eng.tools))
+        try:
+            eng.mito.tools.pop(name, None)
+        except Exception:
+            return     # (the registry is not a plain mapping: nothing was removed, and the model is requirement-based anyway)
+        self.model_unregister(eng, name)
+        self.ctx.count("unregistrations")
+        self.note({"op": "unregister", "engine": eng.idx, "tool": name})
+
+    def op_mutate_declaration(self, eng):
+        """the tool author changes what a registered tool declares (in place, or by rebinding the attribute); a container may
+        be shared by several tools, then all of them change"""
+        rng = self.rng
+        cands = [self.recs[k] for (k, _) in eng.tools.values()]
+        cands = [r for r in cands if r.container is not None or (r.obj is not None and r.style in ("required", "frozen_required"))]
+        if not cands:
+            return
+        r = rng.choice(cands)
+        tag = rng.choice(self.caps + self.custom_tags[:6])
+        rebind = r.obj is not None and r.style in ("required", "frozen_required") and (r.container is None or rng.random() < 0.3)
+        if not rebind:
+            how = "in place"
+            if tag in r.container and rng.random() < 0.7:
+                r.container.discard(tag)
+            else:
+                r.container.add(tag)
+            for other in self.recs.values() if not self.long_ops else [r]:
+                if other.container is r.container:
+                    other.req_now = frozenset(r.container)
+                    other.mutated = True
         else:
-            if after > before:
-                ctx.count("permitted_runs")
+            how = "rebound"
+            new = set(r.req_now)
+            new.symmetric_difference_update({tag})
+            r.container = new if r.style == "required" else None
+            r.obj.required_capabilities = new if r.style == "required" else frozenset(new)
+            r.req_now = frozenset(new)
+            r.mutated = True
+        self.ctx.count("declaration_mutations")
+        self.note({"op": "mutate declaration", "tool": r.name, "key": r.key, "how": how, "now": fmt(r.req_now)})
 
-    def fmt(a):
-        return None if a is None else sorted(map(str, a))
+    def op_reconfigure(self, eng):
+        """the public options of a live engine are assigned new values (verbosity, ROS ceiling, timeout)"""
+        rng = self.rng
+        what = rng.choice(["silent", "silent", "max_ros", "timeout"])
+        if what == "silent":
+            val = rng.random() < 0.4
+        elif what == "max_ros":
+            val = rng.choice([1e9, float("inf"), 1.0, 0.3, 0, float("nan")]) if not self.long_ops else 1e9
+        else:
+            val = rng.choice([0, 1e-9, 0.5, 86400 * 3, float("inf")] if self.clock is not None else [5.0, 1e9, float("inf")])
+        try:
+            setattr(eng.mito, what, val)
+        except Exception:
+            return
+        eng.cfg[what if what != "timeout" else "timeout_seconds"] = repr(val)
+        self.ctx.count("reconfigurations")
+        self.note({"op": "reconfigure", "engine": eng.idx, "option": what, "value": repr(val)})
 
-    steps = rng.randint(2, 8)
-    for _ in range(steps):
+    def op_set_allowed(self, eng):
+        given, model = self.allowed_value()
+        try:
+            eng.mito.allowed_capabilities = given
+        except Exception:
+            self.ctx.count("set_allowed_rejected")
+            return
+        eng.allowed = model
+        self.note({"op": "set_allowed", "engine": eng.idx, "allowed": fmt(model), "form": type(given).__name__})
+
+    ENTRIES = ["metabolize_auto", "metabolize_forced", "execute_tool_call", "llm_loop",
+               "metabolize_auto", "metabolize_forced", "execute_tool_call", "llm_loop",
+               "digest_glucose", "metabolize_other_pathway", "metabolize_nested", "metabolize_nested"]
+    LONG_ENTRIES = ["execute_tool_call"] * 6 + ["metabolize_forced"] * 5 + ["metabolize_auto", "metabolize_nested", "digest_glucose"]
+
+    def step(self):
+        rng = self.rng
+        eng = rng.choice(self.engines)
         r = rng.random()
-        if r < 0.15 or not tools_model:
-            s = new_tool(rng.choice(list(tools_model)) if tools_model and rng.random() < 0.5 else None)
-            register(mito, s)
-            history.append({"op": "register", "tool": s[0], "required": sorted(map(str, s[1])), "style": s[2]})
-        elif r < 0.25:
-            kind = rng.choice(["none", "empty", "subset", "all"])
-            mito.allowed_capabilities = None if kind == "none" else set() if kind == "empty" else set(caps) if kind == "all" else subset()
-            history.append({"op": "set_allowed", "allowed": fmt(mito.allowed_capabilities)})
+        if self.long_ops:
+            if rng.random() < 0.7:
+                eng = self.engines[0]        # most of a long history happens on ONE engine
+            # mostly requests; the other operations keep happening throughout the session
+            if len(eng.tools) < 2500 and rng.random() < 0.15:
+                r = 0.0
+            elif rng.random() < 0.04:
+                r = rng.random() * 0.46
+            else:
+                r = 0.9
+        if r < 0.13 or not eng.tools:
+            rr = rng.random()
+            if eng.tools and rr < (0.25 if self.long_ops else 0.45):
+                name = rng.choice(list(eng.tools))       # re-registration under the same name
+                rec = self.new_rec(name, force_forbidden_for=eng if rng.random() < 0.5 else None)
+            elif rr < 0.6 and len(self.engines) > 1:
+                # a tool (object) that another engine already has
+                pool = [x for x in self.recs.values() if x.obj is not None and x.style != "dynamic_required"]
+                rec = rng.choice(pool) if pool else self.new_rec()
+            else:
+                rec = self.new_rec()
+            self.current = eng
+            try:
+                self.register(eng, rec)
+            finally:
+                self.current = None
+        elif r < 0.2:
+            self.op_set_allowed(eng)
+        elif r < 0.3:
+            self.op_read(eng)
+        elif r < 0.34:
+            self.op_maintenance(eng)
+        elif r < 0.38:
+            self.op_unregister(eng)
+        elif r < 0.42:
+            self.op_mutate_declaration(eng)
+        elif r < 0.43 and len(self.engines) < 3 and not self.long_ops:
+            self.new_engine()
+        elif r < 0.46:
+            self.op_reconfigure(eng)
         else:
-            entry = rng.choice(["metabolize_auto", "metabolize_forced", "execute_tool_call", "llm_loop",
-                                "metabolize_auto", "metabolize_forced", "execute_tool_call", "llm_loop",
-                                "digest_glucose", "metabolize_other_pathway"])
+            entry = rng.choice(self.LONG_ENTRIES if self.long_ops else self.ENTRIES)
+            if self.long_ops and rng.random() < 0.002:
+                entry = "llm_loop"
             # aim at forbidden tools more often than chance would
-            forb = [t for t in tools_model if not permitted(t)]
-            name = rng.choice(forb) if forb and rng.random() < 0.7 else rng.choice(list(tools_model))
-            request(entry, name)
-    if forbidden_seen:
-        for f in set(forbidden_seen):
-            ctx.nontrivial(f)
+            names = list(eng.tools) if len(eng.tools) < 50 else self.some_names(eng)
+            forb = [t for t in names if self.verdict_name(eng, t) == "forbidden"]
+            name = rng.choice(forb) if forb and rng.random() < 0.7 else rng.choice(names)
+            if rng.random() < 0.06:
+                # a tool this engine never registered: registered on another engine only, or merely appended to a constructor list
+                foreign = [x.name for x in self.recs.values() if x.name not in eng.tools]
+                if foreign:
+                    name = rng.choice(foreign[:50])
+            self.request(eng, entry, name)
+
+    def some_names(self, eng):
+        lst = eng.name_list
+        got = [t for t in (self.rng.choice(lst) for _ in range(6)) if t in eng.tools]
+        return got or [next(iter(eng.tools))]
+
+    def run(self):
+        rng = self.rng
+        for _ in range(1 if self.long_ops and rng.random() < 0.5 else rng.choice([1, 1, 2, 2, 2, 3]) if not self.long_ops else 2):
+            self.new_engine()
+        steps = self.long_ops or rng.randint(2, 10)
+        for _ in range(steps):
+            self.step()
+        if self.long_ops:
+            self.ctx.count("long_session_ops", self.ops)
+            self.ctx.count("long_sessions")
+            self.ctx.maxc("tools_registered_on_one_engine", max(len(e.tools) for e in self.engines))
+
+
+class ScriptedProvider:
+    """adversarial LLM provider: requests the scripted tool by exact name, other registered tools, unknown tools, duplicates;
+    sometimes returns the SAME ToolCall / list objects round after round; sometimes raises"""
+    name = "adversary"
+
+    def __init__(self, session):
+        self.S = session
+        self.prompts = []
+        self.active = False
+        self.same_calls = None
+
+    def script(self, eng, name):
+        self.eng, self.target = eng, name
+        self.prompts = []
+        self.active = True
+        self.same_calls = None
+        self.identical = self.S.rng.random() < 0.25
+        self.raise_at = self.S.rng.choice([2, 3]) if self.S.rng.random() < 0.08 else None
+
+    def is_available(self):
+        return True
+
+    def complete(self, prompt, config=None):
+        from operon_ai.providers import LLMResponse
+        self.prompts.append(prompt)
+        return LLMResponse(content="final", model="m", tokens_used=1, latency_ms=0.0)
+
+    def complete_with_tools(self, prompt, tools=None, config=None):
+        from operon_ai.providers import LLMResponse, ToolCall
+        rng = self.S.rng
+        self.prompts.append(prompt)
+        k = len(self.prompts)
+        if self.raise_at == k:
+            self.S.ctx.count("provider_raised")
+            raise rng.choice([RuntimeError, PermissionError, TimeoutError, ValueError])("provider failed")
+        if self.identical and self.same_calls is not None:
+            return self.same_resp, self.same_calls
+        name = self.target
+        others = [t for t in self.eng.tools if t != name]
+        calls = [ToolCall(id="id%d" % k, name=name, arguments={})]
+        if others and rng.random() < 0.5:
+            calls.insert(rng.randint(0, 1), ToolCall(id="o%d" % k, name=rng.choice(others), arguments={}))
+        if rng.random() < 0.3:
+            calls.append(ToolCall(id="u%d" % k, name="no_such_tool", arguments={}))
+        if rng.random() < 0.3:
+            calls.append(ToolCall(id="id%d" % k, name=name, arguments={}))
+        if rng.random() < 0.15:
+            calls.append(calls[0])               # the same ToolCall object twice in one round
+        resp = LLMResponse(content="r", model="m", tokens_used=1, latency_ms=0.0)
+        self.same_resp, self.same_calls = resp, calls
+        return resp, calls
+
+
+def session_case(ctx, n, long_ops=0):
+    import operon_ai.organelles.mitochondria as mito_mod
+    rng = ctx.rng(n)
+    S = Session(ctx, n, rng, long_ops)
+    with contextlib.ExitStack() as stack:
+        stack.enter_context(contextlib.redirect_stdout(_Sink()))       # verbose engines print; nothing may depend on it
+        if rng.random() < 0.5:
+            S.clock = vclock.VClock(base=1_700_000_000.0)     # (only the engine module reads it, through time.time())
+            stack.enter_context(vclock.patched(S.clock, mito_mod))
+        S.run()
+    for f in S.forbidden_seen:
+        ctx.nontrivial(f)
     if n % 500 == 0:
-        ctx.sample({"allowed_initial": fmt(allowed), "history": history})
+        ctx.sample({"engines": [dict((k, v) for k, v in e.cfg.items() if not k.startswith("_")) for e in S.engines],
+                    "history": list(S.history)[:25]})
+
+
+def run_case(ctx, n):
+    if n % (700 if ctx.tier == "quick" else 10000) == 11:
+        return thread_case(ctx, n)
+    if ctx.tier == "quick":
+        if n in (13, 6006):
+            return session_case(ctx, n, long_ops=21000 if n == 13 else 6000)
+    elif n % 25000 == 13:
+        return session_case(ctx, n, long_ops=ctx.rng(n, "len").choice([21000, 30000, 60000]))
+    return session_case(ctx, n)
 
 
 if __name__ == "__main__":
